@@ -316,6 +316,8 @@ class Ledger(metaclass=LedgerRegistry):
 
     @staticmethod
     def get_root_of_merkle_tree(branches, branch_positions, working_branch):
+        if not 0 <= branch_positions < (1 << len(branches)):
+            return None  # not the position of a leaf in a tree of this depth: the extra bits would be ignored
         for i, branch in enumerate(branches):
             other_branch = unhexlify(branch)[::-1]
             other_branch_on_left = bool((branch_positions >> i) & 1)
